@@ -341,6 +341,15 @@ def install(files, root, kind="local"):
         for n, b in files.items():
             tracefs.STORE[f"{root}/{n}"] = b
         return "vfs://" + root
+    if kind == "lvfs":
+        from vf import stagefs
+
+        d = stagefs.base() + root
+        os.makedirs(d, exist_ok=True)
+        for n, b in files.items():
+            with open(os.path.join(d, n), "wb") as f:
+                f.write(b)
+        return "lvfs://" + root
     raise ValueError(kind)
 
 
@@ -362,3 +371,9 @@ def uninstall(files, root, kind):
 
         for k in [k for k in tracefs.STORE if k.startswith(root + "/")]:
             del tracefs.STORE[k]
+    elif kind == "lvfs":
+        import shutil
+
+        from vf import stagefs
+
+        shutil.rmtree(stagefs.base() + root, ignore_errors=True)
